@@ -21,8 +21,8 @@ ANCHORS = ['phylib.io.alf:EphysAlfCreator.convert', 'phylib.io.alf:EphysAlfCreat
            'phylib.io.model:TemplateModel._load_spike_samples', 'phylib.io.model:TemplateModel._load_templates']
 RULE = ('Each case = a generated dense-template dataset {raw data int16/float32 in 1-3 files | absent} x '
         '{features dense/sparse | none} x {curated | uncurated, with a spikeless template first/middle/last} x '
-        '{probe table with 1 or 2 probes whose ids need not be 0..n-1 | none} x {KSLabel / other TSVs, temp_wh.dat, cluster_probes, (n,1) vectors} x id dtype int32/uint32/uint16 with cluster ids occasionally jumping by 300 or 2500, occasionally 300 templates x 3 large datasets (300000 spikes: id files > 1 MiB) x label '
-        '{"", "lbl"} x unit factor {1, 2.5}, loaded and converted with the real EphysAlfCreator.convert. C13 '
+        '{probe table with 1 or 2 probes whose ids need not be 0..n-1, block-wise and far apart or interleaved and close | none} x {KSLabel / other TSVs, temp_wh.dat, cluster_probes, (n,1) vectors} x id dtype int32/uint32/uint16 with cluster ids occasionally jumping by 300 or 2500, occasionally 300 templates x 3 large datasets (300000 spikes: id files > 1 MiB) x label '
+        '{"", "lbl", "a", "n", "clu", "t", "probe00"} x unit factor {1, 2.5}, loaded and converted with the real EphysAlfCreator.convert. C13 '
         'oracle: file-table checker over the output directory (required files, first dimension per object, '
         'times in seconds / samples in samples, unique uuids, label in every object file name), equality of '
         'the reloaded model with the source, refusal of the source directory as target under several spellings (trailing separator, dot-dot, dot, symlink), content hashes of '
@@ -74,6 +74,7 @@ def build(case):
                 rate=[100., 30000., 0.05, 1. / 300][int(rng.integers(0, 4))],   # 0.05 -> 30-sample chunks, 1/300 -> 2-sample chunks (> 20 chunks) ties=bool(rng.random() < 0.3),
                 shanks=[0, 2][int(rng.integers(0, 2))], ncdat_extra=int(rng.integers(0, 2)),
                 dtype_ids=['int32', 'uint32', 'uint16'][int(rng.integers(0, 3))],
+                dtype_times=['uint64', 'int64', 'float64', 'uint32'][int(rng.integers(0, 4))],   # float64: MATLAB-written sample numbers
                 far_ids=int(rng.choice([0, 0, 0, 0, 300, 2500])))
     if rng.random() < 0.03:
         # many templates with narrow id dtypes (products of ids overflow 16 bits)
@@ -100,10 +101,19 @@ def build(case):
         m1 = rng.permutation(nc - n0 + 1)[:nc - n0]
         spec.notes['orig_maps'] = [m0.tolist(), m1.tolist()] if nc > n0 else [m0.tolist()]
         spec.channel_map = np.r_[m0, m1 + m0.max()].astype(np.int64)
+        interleaved = nc > n0 and rng.random() < 0.4
+        if interleaved:
+            # the two probes' channels alternate in the channel arrays and are physically close
+            order = np.argsort(np.r_[np.arange(n0) * 2, np.arange(nc - n0) * 2 + 1], kind='stable')
+            spec.probes = spec.probes[order]
+            spec.channel_map = spec.channel_map[order]
+            spec.notes['interleaved_probes'] = True
+        spec.notes['rawind_expected'] = (spec.channel_map - np.where(spec.probes == spec.probes.min(), 0, m0.max())).tolist() \
+            if nc > n0 else spec.channel_map.tolist()
         spec.n_channels_dat = int(spec.channel_map.max()) + 1 + opts['ncdat_extra']
         if spec.raw is not None:
             spec.raw = rng.integers(-300, 300, size=(spec.raw.shape[0], spec.n_channels_dat)).astype(spec.raw.dtype)
-        if nc > n0:
+        if nc > n0 and not interleaved:
             spec.positions[n0:, 0] += 500.
     ids = np.unique(spec.clusters)
     if rng.random() < 0.6:
@@ -115,7 +125,7 @@ def build(case):
         spec.extra_files['temp_wh.dat'] = b'\x00' * 64
     if rng.random() < 0.3:
         spec.notes['cluster_probes'] = True
-    label = ['', 'lbl'][int(rng.integers(0, 2))]
+    label = ['', 'lbl', '', 'a', 'n', 'clu', 't', 'probe00'][int(rng.integers(0, 8))]   # also labels that are prefixes of attribute names / extensions
     factor = [1, 2.5][int(rng.integers(0, 2))]
     return spec, opts, label, factor
 
